@@ -131,7 +131,7 @@ def interval_const(F, rec):
     fut = arm['future']
     if not (fut and fut[0] == 'call' and fut[1].endswith('Interval::tick')):
         raise AnchorMissing('keep-alive arm is not fed by Interval::tick')
-    timer = fut[2][0]
+    timer = mirq.init_of(fut[2][0])
     if timer[0] != 'call' or timer[1] not in F.fns:
         raise AnchorMissing('timer of the keep-alive arm is not built by a crate function')
     G = F.body(timer[1])
